@@ -582,8 +582,17 @@ impl<M: Manager, W: From<Object<M>>> Pool<M, W> {
     ///
     /// This operation resizes the pool to 0.
     pub fn close(&self) {
-        self.resize(0);
+        // The lock is held for the whole operation so that no object can be
+        // returned to the pool half way through it and be kept by the closed
+        // pool.
+        let mut slots = self.inner.slots.lock().unwrap();
         self.inner.semaphore.close();
+        slots.max_size = 0;
+        while let Some(mut obj) = slots.vec.pop_front() {
+            slots.size -= 1;
+            self.inner.manager.detach(&mut obj.obj);
+        }
+        slots.vec = VecDeque::new();
     }
 
     /// Indicates whether this [`Pool`] has been closed.
